@@ -47,6 +47,7 @@ pub struct KnownFinding {
     pub class: Option<String>,
     pub signature: Option<String>,
     pub signature_prefix: Option<String>,
+    pub signature_contains: Vec<String>,
     pub what: String,
 }
 
@@ -202,6 +203,7 @@ impl Ctx {
                     .signature_prefix
                     .as_ref()
                     .map_or(true, |s| v.signature.starts_with(s.as_str()))
+                && k.signature_contains.iter().all(|s| v.signature.contains(s.as_str()))
                 && (k.class.is_some() || k.signature.is_some() || k.signature_prefix.is_some())
         })
     }
@@ -337,6 +339,7 @@ fn load_known(prop: &str) -> Vec<KnownFinding> {
                 class: g("class"),
                 signature: g("signature"),
                 signature_prefix: g("signature_prefix"),
+                signature_contains: e["signature_contains"].as_array().map(|a| a.iter().filter_map(|x| x.as_str().map(|s| s.to_string())).collect()).unwrap_or_default(),
                 what: g("what").unwrap_or_default(),
             };
             if kf.property == prop {
